@@ -122,6 +122,11 @@ func worker(prop, scID, out string) {
 	if v := os.Getenv("VERIF_E1_MEM_MB"); v != "" {
 		fmt.Sscanf(v, "%d", &cfg.MemLimitMB)
 	}
+	if plan.Liveness {
+		// convergence: 100 store-changing controller transitions in a row without any change of the control state
+		// (a complete release of these scenarios takes fewer writes in total) is a divergence
+		cfg.DivergeLimit = 100
+	}
 	ex := sim.NewExplorer(w, cfg, r)
 	if pf := os.Getenv("VERIF_CPUPROFILE"); pf != "" {
 		f, _ := os.Create(pf)
